@@ -1,5 +1,6 @@
 SPECIFICATION Spec
 CONSTANT Steps = 2000
 CONSTANT MaxTokens = 60
+CONSTANT Mutate = FALSE
 INVARIANT Complete
 CHECK_DEADLOCK FALSE
